@@ -24,7 +24,7 @@ static bool abi_phase(CheckState& st) {
             const jv_abi_row& r = rows[i]; nrows++;
             st.cases_all.insert(hash64(strf("abi %s %s.%s", rp->label.c_str(), r.type, r.member))); st.cases_nontrivial.insert(hash64(strf("abi %s %s.%s", rp->label.c_str(), r.type, r.member)));
             if (r.c_size != r.cxx_size || r.c_align != r.cxx_align || r.c_off != r.cxx_off) {
-                st.violated = true; st.v = {"C19", "abi-table", strf("replica %s: C struct %s%s%s: size %zu vs C++ %zu, align %zu vs %zu, offset %zu vs %zu", rp->label.c_str(), r.type, r.member[0] ? "." : "", r.member, r.c_size, r.cxx_size, r.c_align, r.cxx_align, r.c_off, r.cxx_off), 0};
+                st.violated = true; st.v = {"C19", "abi-table", strf("replica %s: C struct %s%s%s: size %zu vs C++ %zu, %s %zu vs %zu, offset %zu vs %zu", rp->label.c_str(), r.type, r.member[0] ? "." : "", r.member, r.c_size, r.cxx_size, r.c_align >= 100 ? "kind of the declared type (101 bool, 102 other integer, 103 pointer, 104 other)" : "align", r.c_align, r.cxx_align, r.c_off, r.cxx_off), 0};
                 return false;
             }
         }
@@ -102,6 +102,10 @@ static bool audit_phase(CheckState& st) {
             if (!std::regex_match(sym, allowed_writable)) st.counters["writable_symbols_outside_reference_list"]++;
         }
         cj->set("writable_symbols", wa);
+        // code registered to run at exit / unload (a destructor function, a static object with a destructor): the library would write its state
+        // again after "load time", while other threads may still be inside it
+        { std::string fin = sh("readelf -S -W " + d + "/*.o 2>/dev/null | grep -E '\\.(fini_array|dtors)' | head -3");
+          if (!fin.empty()) { st.violated = true; st.v = {"C20", "audit:exit-time-code", std::string("objects built as ") + c.name + " register code to run at exit or unload (.fini_array / .dtors): " + fin.substr(0, 120), 0}; ok = false; } }
         std::string tls = sh("readelf -S -W " + d + "/*.o 2>/dev/null | grep -E '\\.(tbss|tdata)' | head -3");
         if (!tls.empty()) { st.violated = true; st.v = {"C20", "audit:thread-local-storage", std::string("objects built as ") + c.name + " contain TLS sections", 0}; ok = false; }
         report->push(cj);
